@@ -11,7 +11,7 @@ Definition rcase := (Z * sarr * axis_arg * bool * sarr * sarr)%type.
 Definition in_coo (a : sarr) : option (coo Z) :=
   match a with
   | SCoo c => if canonicalb c then Some c else None
-  | SGcxs g => if gcxs_wfb g then Some (gcxs_to_coo Z g) else None
+  | SGcxs g => if gcxs_wfb g && gcxs_okb g then Some (gcxs_to_coo Z g) else None
   | _ => None
   end.
 
